@@ -168,6 +168,9 @@ def place_effect_attrs(rng, p):
             # a variant-level `rename_all` wins over the container's `rename_all_fields`: not inert next to the `upper` effect
             if h.get("sv_attrs"):
                 h["sv_attrs"] = [a for a in h["sv_attrs"] if "rename_all" not in a]
+    if rng.random() < 0.4:
+        # (before any argument attribute is placed: the two handlers end up with the same arguments)
+        spec.add_shared_alias(rng, p)
     for part in p["parts"]:
         kinds = ["instantiate", "migrate", "exec", "query", "sudo"] if part["id"] == "c" else ["exec", "query", "sudo"]
         part["msg_attrs"] = []
@@ -184,7 +187,7 @@ def place_effect_attrs(rng, p):
         for h in part["handlers"]:
             if h["kind"] in ("exec", "query", "sudo") and rng.random() < 0.35:
                 alias = "alias_" + h["hid"].replace(".", "_") + "_zz"
-                h["sv_attrs"] = [f"serde(alias = \"{alias}\")"]
+                h["sv_attrs"] = [a for a in h.get("sv_attrs", []) if "shared_" in a] + [f"serde(alias = \"{alias}\")"]
                 h["sv_attrs_above"] = rng.choice([0, 1])
                 eff["alias"].append((h["hid"], alias))
             for a in h["args"]:
@@ -195,8 +198,6 @@ def place_effect_attrs(rng, p):
                 if ty.kind in DEFAULTABLE and all(s.kind in DEFAULTABLE or True for s in ty.sub) and rng.random() < 0.4:
                     a["attrs"] = ["serde(default)"]
                     eff["default"].append((h["hid"], a["name"]))
-    if rng.random() < 0.4:
-        spec.add_shared_alias(rng, p)
     p["attr_effects"] = eff
     return p
 
